@@ -8,11 +8,13 @@ package main
 
 import (
 	"fmt"
+	"net"
 	"net/http"
 	"net/url"
 	"reflect"
 	"sort"
 	"strings"
+	"time"
 
 	"k8s.io/apiserver/pkg/authentication/serviceaccount"
 	"k8s.io/apiserver/pkg/authentication/user"
@@ -32,15 +34,18 @@ type ident struct {
 
 var names = []string{"alice", "system:serviceaccount:ns:sa", "system:anonymous", "a b", "ü", "%41", "kube:admin,cn=x"}
 var groupSets = [][]string{{}, {"g1"}, {"g1", "system:authenticated"}, {"g 2", "system:authenticated"}, {"system:masters", "g,3"}}
+
 // (keys that already look percent-encoded must be escaped once more, or the upstream decodes them into another key)
 var extras = []map[string][]string{nil, {"scopes": {"x"}}, {"k/1": {"v", "w"}}, {"Key": {"v"}}, {"%": {"v"}}, {"a b": {"v w", "ü"}, "scopes": {"s1", "s2"}},
 	{"example.com%2fscopes": {"v"}}, {"%41": {"v"}, "100%": {"w"}}, {"x%2": {"v"}, "é/k": {"v"}}}
 
 var authHeaders = [][]string{nil, {"Bearer client-token"}, {"Basic Y2xpZW50OnB3"}}
 var impUsers = []string{"", "bob", "system:serviceaccount:n:s", "system:anonymous"}
+
 // (a header that is present with an empty value is still "groups were specified": [""] and ["", "g9"])
 var impGroups = [][]string{nil, {"g9"}, {"g9", "system:unauthenticated"}, {"system:authenticated"}, {""}, {"", "g9"}}
 var impExtras = []map[string][]string{nil, {"Scopes": {"s"}}, {"%41bc": {"v"}}, {"Scopes": {"s", "t"}, "X-Y": {"z"}}}
+
 // (a client may also name identity-bearing headers in its Connection header: a proxy deletes the headers listed there,
 // which must hit only what the CLIENT sent, never what the gateway generates)
 var others = []http.Header{nil, {"Impersonate-Uid": {"1234"}}, {"Impersonate-Foo": {"bar"}}, {"Impersonate-Userx": {"eve"}, "Impersonate-Extra": {"e"}},
@@ -252,6 +257,131 @@ func runCase(c *ev.Check, w *world, auth ident, authz []string, impUser string, 
 	}
 }
 
+// ------------------------------------------------------------------ the upgrade path (exec / attach / port-forward)
+// Connection upgrades leave the reverse proxy and travel through the upgrade-aware handler and its own round tripper:
+// a second door to the upstream, for which the same identity rules hold.
+
+// rawHead sends a raw request and returns the response head (generous deadline; the connection is closed as soon as
+// the head is complete - an upgraded connection would otherwise stay open)
+func rawHead(r *e2e.Rig, raw string) ([]byte, error) {
+	conn, err := net.DialTimeout("tcp", r.GW.Listener.Addr().String(), 20*time.Second)
+	if err != nil {
+		return nil, err
+	}
+	defer conn.Close()
+	_ = conn.SetDeadline(time.Now().Add(20 * time.Second))
+	if _, err := conn.Write([]byte(raw)); err != nil {
+		return nil, err
+	}
+	var out []byte
+	b := make([]byte, 1)
+	for !strings.HasSuffix(string(out), "\r\n\r\n") {
+		n, err := conn.Read(b)
+		if n > 0 {
+			out = append(out, b[0])
+		}
+		if err != nil {
+			return out, err
+		}
+	}
+	return out, nil
+}
+
+func upgradeCase(c *ev.Check, w *world, auth ident, authz []string, impUser string, impGroup []string, other http.Header, mode authzMode) {
+	c.Add("cases", 1)
+	c.Add("upgrade_cases", 1)
+	w.r.SetIdentity(&user.DefaultInfo{Name: auth.name, Groups: auth.groups, Extra: auth.extra})
+	n := 0
+	w.r.SetAuthorize(func(a authorizer.Attributes) (authorizer.Decision, string, error) {
+		if a.GetVerb() != "impersonate" {
+			return authorizer.DecisionAllow, "", nil
+		}
+		i := n
+		n++
+		if mode.kind == "deny" && i == mode.k {
+			return authorizer.DecisionDeny, "denied by the cluster", nil
+		}
+		return authorizer.DecisionAllow, "", nil
+	})
+	w.up.Requests()
+	w.up.Respond = func(rw http.ResponseWriter, r *http.Request, _ *e2e.Captured) {
+		conn, buf, err := rw.(http.Hijacker).Hijack()
+		if err != nil {
+			return
+		}
+		_, _ = buf.WriteString("HTTP/1.1 101 Switching Protocols\r\nConnection: Upgrade\r\nUpgrade: " + r.Header.Get("Upgrade") + "\r\n\r\n")
+		_ = buf.Flush()
+		conn.Close()
+	}
+	defer func() { w.up.Respond = nil }()
+	raw := "POST /api/v1/namespaces/ns/pods/p/exec?command=id HTTP/1.1\r\nHost: c1\r\nConnection: Upgrade\r\nUpgrade: SPDY/3.1\r\nX-Stream-Protocol-Version: v4.channel.k8s.io\r\nContent-Length: 0\r\n"
+	hdr := http.Header{}
+	if len(authz) > 0 {
+		hdr["Authorization"] = authz
+	}
+	if impUser != "" {
+		hdr["Impersonate-User"] = []string{impUser}
+	}
+	if len(impGroup) > 0 {
+		hdr["Impersonate-Group"] = impGroup
+	}
+	for k, v := range other {
+		if k != "Connection" { // the upgrade needs the Connection header for itself
+			hdr[k] = v
+		}
+	}
+	var names []string
+	for k := range hdr {
+		names = append(names, k)
+	}
+	sort.Strings(names)
+	for _, k := range names {
+		for _, v := range hdr[k] {
+			raw += k + ": " + v + "\r\n"
+		}
+	}
+	answer, err := rawHead(w.r, raw+"\r\n")
+	label := fmt.Sprintf("UPGRADE authenticated=%s%v%v client headers=%v authorizer=%v", auth.name, auth.groups, auth.extra, hdr, mode)
+	viol := func(key, f string, a ...interface{}) {
+		c.Violation("upgrade/"+key, label+": "+fmt.Sprintf(f, a...), map[string]interface{}{"authenticated": fmt.Sprint(auth), "client_headers": hdr, "authorizer": fmt.Sprint(mode), "upgrade": true})
+	}
+	if err != nil && len(answer) == 0 {
+		viol("client-error", "%v", err)
+		return
+	}
+	want := reference(auth, impUser, impGroup, nil, mode)
+	got := w.up.Requests()
+	c.Outcome("outcomes", fmt.Sprintf("upgrade/%d/%v/%v/%d", want.gatewayAnswers, impUser != "", len(impGroup), len(other)))
+	if want.gatewayAnswers != 0 {
+		if len(got) != 0 {
+			viol("forwarded-despite-refusal", "the impersonation must be answered by the gateway (%d) but the upstream received the upgrade request as %v", want.gatewayAnswers, got[0].Header)
+		}
+		if !strings.HasPrefix(string(answer), fmt.Sprintf("HTTP/1.1 %d", want.gatewayAnswers)) {
+			viol("wrong-refusal-status", "answered %q, expected status %d", trunc(answer), want.gatewayAnswers)
+		}
+		return
+	}
+	if len(got) != 1 {
+		viol("not-forwarded", "expected the upgrade request to be forwarded once, the upstream received %d (gateway answered %q)", len(got), trunc(answer))
+		return
+	}
+	g := got[0]
+	// (with a bearer-token client configuration the upgrade path carries no Authorization at all - recorded by C04,
+	// DESIGN.md 0.6; what must never happen is the CLIENT's credential arriving)
+	for _, a := range g.Header["Authorization"] {
+		if a != "Bearer "+e2e.GatewayToken {
+			viol("client-credential-forwarded", "Authorization at the upstream is %q", g.Header["Authorization"])
+		}
+	}
+	told, unknown := decode(g.Header)
+	if len(unknown) > 0 {
+		viol("client-impersonate-header-forwarded", "client-supplied header(s) of the Impersonate-* family reached the upstream: %v", unknown)
+	}
+	if !sameIdent(told, want.who) {
+		viol("wrong-identity", "the upstream is told to act as %s %q %v, expected %s %q %v", told.name, told.groups, told.extra, want.who.name, want.who.groups, want.who.extra)
+	}
+}
+
 func trunc(b []byte) string {
 	if len(b) > 120 {
 		b = b[:120]
@@ -346,10 +476,31 @@ func main() {
 			}
 		}
 	}})
+	tasks = append(tasks, ev.Task{Name: "upgrade-path", Run: func() {
+		w := mkWorld()
+		defer func() { w.r.Close(); w.up.Close() }()
+		for _, n := range names {
+			for _, e := range extras {
+				upgradeCase(c, w, ident{n, groupSets[2], e}, nil, "", nil, nil, allow)
+			}
+		}
+		for _, a := range authHeaders {
+			for _, iu := range impUsers {
+				for _, ig := range impGroups {
+					for _, o := range others {
+						for _, m := range []authzMode{allow, {"deny", 0}, {"deny", 1}} {
+							upgradeCase(c, w, base, a, iu, ig, o, m)
+						}
+					}
+				}
+			}
+		}
+	}})
 	c.RunTasks(tasks)
 	c.Finish(map[string]interface{}{
+		"upgrade_cases":       c.Counter("upgrade_cases"),
 		"evaluations":         c.Counter("cases"),
 		"distinct_nontrivial": c.DistinctCount("outcomes"),
-		"rule":                "authenticated identity (7 names incl. spaces, UTF-8, percent, comma x 5 group lists x 6 extra maps) fully; the product of client headers Authorization (3) x Impersonate-User (4) x Impersonate-Group (6, incl. an empty first value) x Impersonate-Extra-* (4) x other Impersonate-* members / Connection headers naming identity headers (7) x authorizer behaviour (6: allow, deny/err the k-th check) with canonical header names (all three casings in the thorough tier), plus identity x impersonation and casing x impersonation pairs. Distinct = (gateway answer class, which header families were present).",
+		"rule":                "authenticated identity (7 names incl. spaces, UTF-8, percent, comma x 5 group lists x 6 extra maps) fully; the product of client headers Authorization (3) x Impersonate-User (4) x Impersonate-Group (6, incl. an empty first value) x Impersonate-Extra-* (4) x other Impersonate-* members / Connection headers naming identity headers (7) x authorizer behaviour (6: allow, deny/err the k-th check) with canonical header names (all three casings in the thorough tier), plus identity x impersonation and casing x impersonation pairs; and the upgrade path (SPDY exec): identities, and Authorization x Impersonate-User x Impersonate-Group x others x {allow, deny 1st, deny 2nd}. Distinct = (gateway answer class, which header families were present).",
 	})
 }
